@@ -91,8 +91,14 @@ def run_one(h: Harness, seed: int, choices: Sequence[int] | None = None, avoid_k
     finally:
         signal.setitimer(signal.ITIMER_REAL, 0)
         signal.signal(signal.SIGALRM, old)
-        if gc_was:
-            gc.enable()
+    # Freeze the trace before the collector may run finalizers of leaked transports/sockets: their close() would
+    # otherwise append records at a GC-dependent moment (a determinism breaker seen with mutated libraries).
+    digest = world.digest() if want_digest else ""
+    order_digest = world.order_digest() if want_digest else ""
+    world.trace = list(world.trace)
+    world.log = lambda *a, **k: None  # type: ignore[method-assign]
+    if gc_was:
+        gc.enable()
     return RunResult(
         harness=h.name,
         seed=seed,
@@ -100,8 +106,8 @@ def run_one(h: Harness, seed: int, choices: Sequence[int] | None = None, avoid_k
         choices=list(world.ch.log),
         violation=violation,
         error=error,
-        digest=world.digest() if want_digest else "",
-        order_digest=world.order_digest() if want_digest else "",
+        digest=digest,
+        order_digest=order_digest,
         stats=dict(world.stats),
         probes=dict(world.probes),
         counters=dict(world.counters),
